@@ -388,7 +388,7 @@ def engine_obs(prog, s, w, results, nm, base_items=1):
         if name == 'ch0':
             continue
         e = slot_entry(w, name)
-        rep = [engine_reply_str(prog, m_, nm) for m_ in info.get('reply_log', [])] + [engine_reply_str(prog, m_, nm) for m_ in queue_msgs(info['reply'])]
+        rep = [engine_reply_str(prog, m_, nm) for m_ in info.get('reply_log', [])] + [('Ok(Method:Basic.QosOk)' if (isinstance(m_, tuple) and m_ and m_[0] == 'PREFILLED') else engine_reply_str(prog, m_, nm)) for m_ in info['reply'].queue]
         if info['reply'].senders == 0:
             rep.append('closed')
         if nm.b(e[2]):
@@ -466,6 +466,12 @@ def build_test(prog, w, nm, shape, infoA, events, blocked=True):
                 lines.append(f"    w.slots.iter_mut().find(|s| s.name == \"{name}\").unwrap().{k}_rx = None;")
     if blocked and w.blocked is not None and (None, 'blocked') not in dropped_by_event and not nm.b(w.blocked.rx_alive):
         lines.append("    w.blocked_rx = None;")
+    # a reply that the channel's caller has not picked up yet (the answer to its call in flight)
+    for name, info in w.slots.items():
+        if name != 'ch0':
+            for q_ in info['reply'].queue:
+                if isinstance(q_, tuple) and q_ and q_[0] == 'PREFILLED':
+                    lines.append(f"    prep(&mut w, AMQPFrame::Method({nm.i(info['id'])}, AMQPClass::Basic(basic::AMQPMethod::QosOk(basic::QosOk {{}}))));")
     lines.append("    ready(&mut w);")
     for ev in events:
         if ev[0] == 'frame':
